@@ -980,6 +980,35 @@ WS_GENERAL = ("trim", "trim_start", "trim_end", "trim_left", "trim_right", "trim
               "split_whitespace", "split_ascii_whitespace", "is_whitespace", "is_ascii_whitespace")
 
 
+@rule("C14.R8", floor=2)
+def c14_r8(ctx):
+    """Every targets / sources section goes through the bundle parser: the two path lists
+    given to Rule::new are, on every path, `get_path_strings` of the Ok result of
+    `PathBundle::parse_lines` applied to that section's lines - never the lines themselves
+    (the bundle parser is where indentation, empty lines and kind clashes are rejected)."""
+    p = _parser(ctx)
+    rn = p.calls_to("rule::Rule::new")
+    ctx.need(len(rn) == 1, "Rule::new call")
+    rn = rn[0]
+    for i, nm in enumerate(("targets", "sources")):
+        ctx.inst("%s handed to Rule::new" % nm, rn.where)
+        org = p.origins_of_operand(rn.args[i])
+        bad = []
+        for o in org:
+            ok = False
+            if is_call(o, "bundle::PathBundle::get_path_strings") and len(o) == 1:
+                gp = p.call_at[o[0][2]]
+                o2s = p.origins_of_operand(gp.args[0])
+                if o2s and all(is_call(o2, "bundle::PathBundle::parse_lines") and o2[1:] == (("variant", "Ok"), ("field", 0)) for o2 in o2s):
+                    ok = True
+            if not ok:
+                bad.append(fmt_origin(o))
+        if not org or bad:
+            ctx.viol((p.id, "section-bypasses-bundle-parser", nm), "the %s of a rule can be something other than the paths the bundle parser yields for that section (%s): lines that the bundle layer rejects (indentation without a parent, empty lines) would be accepted as paths" % (nm, ", ".join(sorted(bad))[:160]), rn.where)
+        else:
+            ctx.ok()
+
+
 @rule("C14.R6", floor=1)
 def c14_r6(ctx):
     """Only tabs indent and a name is everything after them: in the line lexer neither the
